@@ -15,6 +15,7 @@ from kit import pdrive, specparse
 from kit.pdrive import NK
 
 PREFIX = param("prefix", [])
+BEFORE = param("before", [])   # kind sequences parsed beforehand by the SAME Parser / matcher / builder (C15, C18)
 K = param("k", 2)
 STOP = bool(param("stop", False))
 
@@ -49,6 +50,14 @@ def run_real(kinds, stop):
     b = pdrive.RecBuilder()
     p = Parser(b)
     p.stop_at_first_error = stop
+    for old in BEFORE:
+        try:
+            p.parse(pdrive.KScanner(old), m)
+        except ParserException:
+            pass
+        except CompositeParserException:
+            pass
+    m.calls = 0
     res = {"doc": None, "errors": None, "raised": None}
     try:
         res["doc"] = p.parse(sc, m)
